@@ -90,7 +90,8 @@ def build(W):
     for i, pre in enumerate(W["pre"]):
         ps = [objs[p - 1] for p in pre]
         for x in W["ext"][i]:
-            ps.append(other // pj.Task(x, name="outside"))
+            # a task of another WBS, or (odd ids) a free-standing task that belongs to no WBS at all
+            ps.append(pj.Task(x, name="outside") if x % 2 else other // pj.Task(x, name="outside"))
         if ps:
             objs[i].predecessors = ps
     return w, objs
